@@ -3,6 +3,7 @@
 package props
 
 import (
+	"math"
 	"fmt"
 	"time"
 
@@ -234,6 +235,65 @@ func runC11(r *vk.Run) {
 		c.Count("large_vectors", 1)
 		c.Nontrivial(fmt.Sprintf("large|%d|%s", c.Idx, text))
 	})
+	// groups whose IEEE sum overflows: with only non-negative huge members the sum is +Inf in every
+	// operand order, so the expected value is unambiguous (avg/stddev are left out: a running mean
+	// need not overflow where sum/n does)
+	r.Phase("overflow", r.N(400, 60000), func(c *vk.Case) {
+		rng := c.Rng
+		steps := rng.Range(1, 3)
+		var recs []Rec
+		for s := 0; s < steps; s++ {
+			used := map[string]bool{}
+			for i := 0; i < rng.Range(2, 7); i++ {
+				l := map[string]string{"job": "j", "a": vk.Pick(rng, []string{"x", "y"}), "b": vk.Pick(rng, []string{"p", "q", "r", "s"})}
+				if used[labelKey(l)] {
+					continue
+				}
+				used[labelKey(l)] = true
+				v := vk.Pick(rng, []string{"1e308", "9e307", "1.7e308", "5", "7", "0.5", "1e308"})
+				recs = append(recs, Rec{TS: metricT0 + int64(s)*4e9 + 5e8 + int64(rng.Intn(3000))*1e6, Line: "v=" + v, Labels: l})
+			}
+		}
+		sortRecs(recs)
+		env := &MEnv{Recs: recs, Msg: env0.Msg, UnwrapKeeps: env0.UnwrapKeeps, CmpFalse: env0.CmpFalse, CmpFalseBool: env0.CmpFalseBool}
+		a := &VecAgg{Op: vk.Pick(rng, []string{"sum", "sum", "sum", "max", "min", "count"}), Inner: c11Leaf(), GroupFirst: rng.Bool()}
+		switch rng.Intn(3) {
+		case 0:
+			a.Grouped, a.Group = true, []string{"a"}
+		case 1:
+			a.Grouped, a.Without, a.Group = true, true, []string{"b"}
+		}
+		var expr MExpr = a
+		if rng.Chance(1, 3) {
+			expr = &VecAgg{Op: "sum", Inner: a}
+		}
+		text := expr.Text()
+		p := EvalP{Start: metricT0 + 4e9, End: metricT0 + int64(steps)*4e9, Step: 4 * time.Second}
+		res, err := evalQuery(&MemQuerier{Recs: recs, ErrAfter: -1}, text, p)
+		c.Eval(1)
+		det := map[string]any{"query": text, "records": recs, "params": p, "result": res}
+		if err != nil {
+			c.Fail("", "query failed: "+text+": "+err.Error(), det)
+			return
+		}
+		if m := compareMetric(expr, env, p, res, 1e-9); m != "" {
+			c.Fail("", text+": "+m, det)
+			return
+		}
+		inf := 0
+		for _, T := range gridTimes(p) {
+			for _, sv := range expr.Eval(env, T).M {
+				if math.IsInf(sv.V, 0) {
+					inf++
+				}
+			}
+		}
+		c.Count("overflowing_group_sums", inf)
+		if inf > 0 {
+			c.Nontrivial(fmt.Sprintf("overflow|%d|%s", c.Idx, text))
+		}
+	})
+	r.Require("overflowing_group_sums", 100)
 	r.Require("distinct_nontrivial", 800)
 	r.Require("sort_orders_checked", 100)
 	r.Require("depth:3", 200)
